@@ -209,3 +209,32 @@ Proof.
     apply filter_In. split; [assumption|]. apply negb_true_iff. now apply Nat.eqb_neq. }
   specialize (Gone c Hv). split; [exact Gone|]. intros Y. apply Gone. apply (Permutation_in _ (wf_reg _ W') Y).
 Qed.
+
+(* what is not reachable is neither registered nor indexed (any tree state satisfying WF) *)
+Theorem unreachable_uncounted t n : WF t -> ~ In n (ids (forest_of t)) ->
+  ~ In n (reg t) /\ forall d, ~ In n (idx_get d (idx t)).
+Proof.
+  intros H Hn. split.
+  - intros Y. apply Hn. apply (Permutation_in _ (wf_reg t H) Y).
+  - intros d Y. apply (idx_get_keys t n d H) in Y. apply Hn. rewrite <- (keys_fst (forest_of t)).
+    change n with (fst (n, d)). now apply in_map.
+Qed.
+
+(* clear(): nothing is left *)
+Theorem cleared_gone w ti t :
+  WFw w -> get_tree w ti = Some t ->
+  exists t', get_tree (snd (op_clear w ti)) ti = Some t' /\ forest_of t' = [] /\ reg t' = [] /\ idx t' = [].
+Proof.
+  intros H Gt. assert (Wt := WFw_tree w ti t H Gt).
+  assert (W' := WFw_op_clear w ti H). unfold op_clear, op_remove_children in *. rewrite Gt in *. cbn [parent_path Nat.eqb get_ch] in *.
+  rewrite unregister_all_eq in *. cbn [snd] in *.
+  eexists. split; [now apply (get_put_tree w ti t)|]. cbn [forest_of set_all reg idx upd_ch].
+  match goal with |- _ /\ ?r = [] /\ ?ix = [] => set (r' := r); set (ix' := ix) end.
+  assert (Wt' : WF (set_all t [] r' ix')).
+  { apply (WFw_tree _ ti _ W'). now apply (get_put_tree w ti t). }
+  refine (conj eq_refl (conj _ _)).
+  - assert (P := wf_reg _ Wt'). cbn in P. apply Permutation_sym in P. now apply Permutation_nil in P.
+  - assert (P := wf_idx _ Wt'). cbn in P. assert (Ne := wf_ine _ Wt'). cbn [idx set_all] in *.
+    destruct ix' as [|e ix0]; [reflexivity|]. exfalso. inversion Ne as [|x l N1 N2]; subst.
+    destruct (snd e) as [|m l0] eqn:E; [contradiction|]. apply Permutation_sym in P. apply Permutation_nil in P. unfold idx_flat in P. cbn in P. rewrite E in P. discriminate.
+Qed.
